@@ -126,7 +126,9 @@ JCircleFit(r) ==
                                /\ Near(o.res[j].r, r.R * QP, TolF))
        \* a fit started from its own result succeeds and returns the same circle (all points weighted)
        /\ r.sg2 = 0 =>
-            ClauseAll(i, "C09.cfit.refit_from_result", {j \in 1..n : o.res[j].ok /\ o.res[j].finite},
+            \* (not where the data are nearly straight and the "circle" has run off to a radius of many times the generating one:
+            \*  the optimum is flat there and any nearby answer is as good)
+            ClauseAll(i, "C09.cfit.refit_from_result", {j \in 1..n : o.res[j].ok /\ o.res[j].finite /\ o.res[j].r < 20 * r.R * QP},
                       LAMBDA j : o.res[j].refit_ok /\ o.res[j].refit_same)
        \* otherwise (any data, all points weighted): a reported circle is a stationary point of sum (|p-c|-r)^2
        /\ r.sg2 = 0 =>
@@ -145,7 +147,8 @@ JRansac(r) ==
         fair == /\ (FairContamination(r.pts, r.ctr, r.R) \/ rivalFair)
                 /\ r.tolN > 0 /\ r.tolD > 0 /\ r.tolN < r.R * r.tolD
                 /\ (rivalFair \/ r.iters = 0 \/ r.iters >= 200 \/ (r.iters >= 50 /\ 5 * on >= 4 * Len(r.pts)))
-                /\ (r.rmin < 0 \/ r.rmin < r.R) /\ (r.rmax < 0 \/ r.rmax > r.R) IN
+                \* (both bounds are documented as inclusive; exactly representable radii only, which lattice radii times 2^k are)
+                /\ (r.rmin < 0 \/ r.rmin <= r.R) /\ (r.rmax < 0 \/ r.rmax >= r.R) IN
     /\ fair => Clause(i, "C09.ransac.finds_a_circle", o.ok)
     /\ (fair /\ o.ok) =>
          /\ Clause(i, "C09.ransac.shape", Len(o.dq) = Len(r.pts))
